@@ -1,8 +1,10 @@
 (** Property C04: foreign-architecture and x32 events never reach the rules. *)
 From Coq Require Import List NArith Bool String.
-From Seccomp Require Import Words Result Machine Policy Spec CompileProofs CoreTheorems CoreExamples.
+From Seccomp Require Import Words Result Machine Policy Spec CompileProofs CoreTheorems CoreExamples Codegen.
+From Gen Require Import GenCodegen.
 Import ListNotations.
 Open Scope N_scope.
+Open Scope list_scope.
 
 (** any event whose architecture word differs from the policy's gets the default action, whatever its number and
     arguments, for programs of every size (both encodings of the architecture jump are covered by the proof) *)
@@ -39,6 +41,37 @@ Theorem C04_prologue_both_encodings : forall le ai ev rest d,
   if ev_arch ev =? ai_id ai then run (word_at le ev) (rest ++ [IRet d]) 0 (ev_arch ev) else ORet d.
 Proof. intros le ai ev rest d H. exact (prologue_sem le ai ev rest H d). Qed.
 Print Assumptions C04_prologue_both_encodings.
+
+(** ** The tie to the source at the level of Policy.Assemble itself.
+    [policy_layout], [x32_guard], [x32_guard_condition], [policy_jumpN] (gen/GenCodegen.v) are REGENERATED from filter.go on
+    every run: the append statements that put the final program together, rendered as templates. Their meaning - with
+    the Go conversions uint8(jumpN), uint32(jumpN) made explicit - is exactly the program of the model's [compile], for
+    every architecture record, constant record, default action and group code, in both encodings of the architecture jump. *)
+Theorem C04_source_layout_is_the_model : forall k ai d body,
+  interp_layout k ai d (x32_filter k ai) body 20 policy_layout =
+  Some (prologue ai (jumpN_value (x32_filter k ai) body) ++ [ILd 0] ++ x32_filter k ai ++ body ++ [IRet (ret_word k d)]).
+Proof.
+  intros k ai d body. unfold policy_layout, prologue. cbn -[x32_filter jumpN_value N.leb N.modulo ret_word app].
+  destruct (jumpN_value (x32_filter k ai) body <=? 255); cbn -[x32_filter jumpN_value N.modulo ret_word app];
+    rewrite ?app_nil_r; reflexivity.
+Qed.
+Print Assumptions C04_source_layout_is_the_model.
+
+(** the x32 guard in the source: unsigned >= against the x32 mask, falling through by one on false, then ERRNO|ENOSYS;
+    emitted exactly when the policy's architecture id is x86_64's; the jump distance counts guard, groups and one *)
+Theorem C04_source_x32_guard_is_the_model : forall k ai d,
+  interp_pinstrs k ai d [] [] x32_guard = Some [IJmpIf JGe (k_x32mask k) 0 1; IRet (N.lor (k_errno k) (k_enosys k))] /\
+  x32_guard_condition = "p.arch.ID == arch.X86_64.ID"%string /\
+  policy_jumpN = "len(x32Filter) + len(instructions) + 1"%string /\
+  (forall body, jumpN_value (x32_filter k ai) body = N.of_nat (List.length (x32_filter k ai) + List.length body + 1)).
+Proof. intros k ai d. repeat split. Qed.
+Print Assumptions C04_source_x32_guard_is_the_model.
+
+(** Program.Ret / returnValue in the source: EPERM is or-ed into ActionErrno, every other action is returned verbatim *)
+Theorem C04_source_return_value :
+  return_value_body = "{ if action == ActionErrno { action |= Action(errnoEPERM) } return uint32(action) }"%string.
+Proof. reflexivity. Qed.
+Print Assumptions C04_source_return_value.
 
 Theorem C04_nonvacuous :
   run_event true ex_prog (ev_of 0 1073741827 0) = ORet 327681 /\
